@@ -223,6 +223,7 @@ def one_case(ck, rng, label, crys, chem, ex, cutoff, mode, maxjumps, skipped):
     if boundary_margin(ex, chem, r2, obst, onmax, nmax) < 1e-6:
         skipped["near-threshold"] += 1; return None
     model = py_model(ex, chem, c2, nmax, obst, onmax)
+    nfree = len(py_model(ex, chem, c2, nmax, [None] * len(obst), onmax)) if any(m is not None for m in obst) else len(model)
     if len(model) > maxjumps:
         skipped["too-many-jumps"] += 1; return None
     # the code's own box (for the record)
@@ -240,7 +241,7 @@ def one_case(ck, rng, label, crys, chem, ex, cutoff, mode, maxjumps, skipped):
     ops = coq_ops(ex, chem)
     res = dict(label=label, cutoff=cutoff, arg=arg, chem=chem, model=model, impl=impl, latt=latt, nmax=nmax, code_nmax=code_nmax,
                timpl=timpl, crys=repr(crys), njumps=len(model), nclasses=len(jn), nG=len(ex.ops), obst=obst,
-               box_small=any(code_nmax[k] < nmax[k] for k in range(3)), _ex=ex, _crys=crys, c2=c2)
+               box_small=any(code_nmax[k] < nmax[k] for k in range(3)), _ex=ex, _crys=crys, c2=c2, nblocked=nfree - len(model))
     if impl is None:
         res["error"] = "displacement does not correspond to a lattice vector between the named sites"; return res
     if ops is None:
@@ -305,7 +306,7 @@ def run_coq(ck, name, cases, chunk=12):
         body = "Eval vm_compute in (map run %s)." % coq_list([c["term"] for c in cases[a:a + chunk]])
         txt = ck.coq_cases("%s_%d" % (name, a), body, IMPORTS)
         txt = txt[txt.index("="):].split(": list")[0]
-        got = re.findall(r"\((\d+)%nat,\s*(\d+)%nat\)|\((\d+),\s*(\d+)\)", txt)
+        got = re.findall(r"\(\s*(\d+)%nat,\s*(\d+)%nat\)|\(\s*(\d+),\s*(\d+)\)", txt)
         got = [(int(g[0] or g[2]), int(g[1] or g[3])) for g in got]
         if len(got) != len(cases[a:a + chunk]):
             raise CoqFailure("could not parse model output: " + txt[:300])
@@ -319,10 +320,10 @@ def report(ck, res, code, nmodel):
     rep["closestdistance"] = res.get("arg")
     kind = "%s|cd=%s|%s" % (res["label"].split("-")[0] if res["label"].startswith("rand") else "named",
                             "default" if res["arg"] is None else ("list" if isinstance(res["arg"], list) else "scalar"),
-                            "boxsmall" if res.get("box_small") else "boxok")
+                            "boxsmall" if res.get("box_small") else "boxok") + ("|obstructed" if res.get("nblocked") else "")
     ck.case(key=(res["label"], res["crys"], res["chem"], round(res["cutoff"], 9), res["arg"]), nontrivial=res.get("njumps", 0) >= 2, kind=kind,
             sample={"crystal": res["crys"], "chem": res["chem"], "cutoff": res["cutoff"], "closestdistance": res["arg"],
-                    "jumps": res.get("njumps"), "classes": res.get("nclasses"), "|G|": res.get("nG"), "certified_box": res.get("nmax"),
+                    "jumps": res.get("njumps"), "jumps_removed_by_obstruction": res.get("nblocked"), "classes": res.get("nclasses"), "|G|": res.get("nG"), "certified_box": res.get("nmax"),
                     "code_box": res.get("code_nmax"), "coq_code": code})
     if "error" in res:
         ck.violation("jumpnetwork failed or returned malformed data: " + res["error"], rep, key="c21-malformed"); return
@@ -332,7 +333,7 @@ def report(ck, res, code, nmodel):
     if res["missing"]:
         key = "c21-box-too-small" if res["box_small"] and all(any(abs(x[2][k]) > res["code_nmax"][k] for k in range(3)) for x in res["missing"]) else "c21-missing-jump"
         bad.append((key, "misses %s jump(s) below the cutoff, e.g. (i,j,R)=%s (the code searches |R_k| <= %s; the certified box is %s)" %
-                    ("" if len(res["missing"]) < 5 else ">=", res["missing"][0], res["code_nmax"], list(res["nmax"]))))
+                    (len(res["missing"]) if len(res["missing"]) < 5 else ">=5", res["missing"][0], res["code_nmax"], list(res["nmax"]))))
     if res["notclosed"]: bad.append(("c21-class-not-closed", "class %d is not closed: image of %s under %s is absent" % res["notclosed"]))
     if res["lattdiff"]: bad.append(("c21-lattice-form", "jumpnetwork2lattice differs from the displacement form"))
     rep.update(extra=res["extra"], missing=res["missing"], notclosed=res["notclosed"], coq_code=code, model_jumps=nmodel)
@@ -398,12 +399,13 @@ def run(ck):
             codes[id(c)] = run_coq(ck, "big%d" % k, [c], chunk=1)[0]
     except CoqFailure as e:
         ck.broken_proof = "correspondence Model/Jumps.check_network: %s" % e
+        ck.note("CORRESPONDENCE BROKEN: " + str(e)[:300])
     nn_mismatch = 0
     for c in cases:
         code, nmodel = codes.get(id(c), (None, c.get("njumps")))
         report(ck, c, code, nmodel)
     # nnlist (supporting information)
-    nn_cases = [c for c in cases if "_ex" in c and c["njumps"] <= 400]
+    nn_cases = [c for c in cases if "_ex" in c and c["njumps"] <= 700]
     for c in nn_cases[:ck.n(8, 40)] + [c for c in nn_cases if c.get("box_small")][:3]:
         m = nnlist_check(c["_ex"], c["_crys"], c["chem"], c["cutoff"], c["c2"], c["nmax"])
         if m:
